@@ -23,6 +23,7 @@ CT_SPECS = [
     ("application", "octet-stream", {}),
     ("application", "x-thing", {"k": "v w", "z": "é"}),
     ("text", "x-log", {"charset": "latin-1", "origin": "a;b=c"}),
+    ("text", "csv", {"charset": "utf8", "columns": "id,name,status"}),
 ]
 TEXT_CHUNKS = st.sampled_from([b"", b"a", b"line one\n", "é".encode("utf8"), b"  ", b"x y", "中文".encode("utf8"), b"tail"])
 BIN_CHUNKS = st.sampled_from([b"", b"\xff\x00", b"\x80abc", b"1", b"\n"])
@@ -43,20 +44,21 @@ REASON = st.sampled_from(["", "because", "réason ünicode", "two\nlines", " pad
 
 
 @st.composite
-def s_payload(draw, kind, allow_err=True):
+def s_payload(draw, kind, allow_err=True, skip_both=False):
     """What is passed to the outcome method besides the test."""
     if kind == "success":
         return {"form": draw(st.sampled_from(["none", "none", "details"])), "details": draw(DETAILS)}
     if kind == "uxsuccess":
         return {"form": draw(st.sampled_from(["none", "details"])), "details": draw(DETAILS)}
     if kind == "skip":
-        form = draw(st.sampled_from(["reason", "details", "details+reasondetail"]))
+        form = draw(st.sampled_from(["reason", "details", "details+reasondetail"] + (["reason+details"] if skip_both else [])))
         return {"form": form, "reason": draw(REASON), "details": draw(DETAILS)}
     form = draw(st.sampled_from(["err", "details"] if allow_err else ["details"]))
     return {"form": form, "details": draw(DETAILS), "exc": draw(st.sampled_from(["RuntimeError", "AssertionError", "ValueError", "KeyError"]))}
 
 
 PAYLOAD = {k: s_payload(k) for k in KINDS}
+PAYLOAD_BOTH = dict(PAYLOAD, skip=s_payload("skip", skip_both=True))
 TAGSET = st.sets(st.sampled_from(TAGS), max_size=2)
 KIND = st.sampled_from(KINDS)
 TIMES = st.sampled_from([None, 0, 1, 2, 5, 9, 3])
@@ -65,7 +67,7 @@ TIMES = st.sampled_from([None, 0, 1, 2, 5, 9, 3])
 @st.composite
 def s_history(draw, max_tests=4, with_run=True, with_tags=True, with_time=True, with_control=False,
               with_startless=False, with_placeholder=False, tags_after_outcome=True, test_kinds=("case",),
-              second_run=True, max_ops=30):
+              second_run=True, max_ops=30, skip_both=False):
     ops = []
     in_test = False
     have_outcome = False
@@ -109,7 +111,7 @@ def s_history(draw, max_tests=4, with_run=True, with_tags=True, with_time=True, 
         elif c == "outcome":
             kind = draw(KIND)
             marker += 1
-            ops.append({"op": "outcome", "kind": kind, "payload": draw(PAYLOAD[kind]), "marker": marker})
+            ops.append({"op": "outcome", "kind": kind, "payload": draw((PAYLOAD_BOTH if skip_both else PAYLOAD)[kind]), "marker": marker})
             have_outcome = True
         elif c == "stopTest":
             ops.append({"op": "stopTest"})
@@ -138,7 +140,7 @@ def s_history(draw, max_tests=4, with_run=True, with_tags=True, with_time=True, 
         if not have_outcome:
             marker += 1
             kind = draw(KIND)
-            ops.append({"op": "outcome", "kind": kind, "payload": draw(PAYLOAD[kind]), "marker": marker})
+            ops.append({"op": "outcome", "kind": kind, "payload": draw((PAYLOAD_BOTH if skip_both else PAYLOAD)[kind]), "marker": marker})
         ops.append({"op": "stopTest"})
     if in_run and draw(st.booleans()):
         ops.append({"op": "stopTestRun"})
@@ -198,6 +200,11 @@ def outcome_call(result, test, op):
         if p["form"] == "reason":
             info["reason"] = p["reason"]
             m(test, p["reason"])
+        elif p["form"] == "reason+details":
+            d = make_details(p["details"])
+            info["reason"] = p["reason"]
+            info["details"] = d
+            m(test, p["reason"], details=d)
         else:
             d = make_details(p["details"])
             if p["form"] == "details+reasondetail":
